@@ -69,7 +69,8 @@ Theorem C12_listing : forall s tk nk tb k,
 Proof.
   intros s tk nk tb k Hinv Hk. rewrite (find_by_type_spec hash _ _ _ _ Hinv).
   split; [reflexivity|]. split; [apply (spec_ents_lookup _ _ _ _ _ 0%nat Hk)|].
-  split; [intros j; apply (spec_ents_lookup _ _ _ _ _ j Hk)|]. eapply rec_entries_spec. exact Hinv.
+  split; [intros j; apply (spec_ents_lookup _ _ _ _ _ j Hk)|].
+  rewrite (rec_entries_spec hash _ _ _ Hinv). unfold all_ents. reflexivity.
 Qed.
 
 (** ** 3. The readers return the specification lists *)
@@ -89,32 +90,44 @@ Proof. intros s tk nk tb. apply spec_recs_shape. Qed.
     five record types have empty lists); [getAllRecords name] = the five
     lists in ascending type order with fields (name, type, data, id).  Both
     halt exactly on non-TLD names that are [readable] (see section 10). *)
-Theorem C12_refines : forall c s name,
-  rec_inv s ->
-  (forall typ s' v ns, nexec c s (GetRecords name typ) = Halt (s', v, ns) ->
-     exists tok tb, tok_of c s name = Halt tok /\ to_byte typ = Halt tb /\ s' = s /\ ns = [] /\
-       v = VList (map VBytes (spec_recs s (hash tok) (hash name) tb))) /\
-  (forall s' v ns, nexec c s (GetAllRecords name) = Halt (s', v, ns) ->
-     exists tok, tok_of c s name = Halt tok /\ s' = s /\ ns = [] /\
-       v = VList (rec_vals name 1 (spec_recs s (hash tok) (hash name) 1) ++
-                  rec_vals name 5 (spec_recs s (hash tok) (hash name) 5) ++
-                  rec_vals name 6 (spec_recs s (hash tok) (hash name) 6) ++
-                  rec_vals name 16 (spec_recs s (hash tok) (hash name) 16) ++
-                  rec_vals name 28 (spec_recs s (hash tok) (hash name) 28))) /\
+Theorem C12_refines : forall c s name typ s' v ns,
+  rec_inv s -> nexec c s (GetRecords name typ) = Halt (s', v, ns) ->
+  exists tok tb, tok_of c s name = Halt tok /\ to_byte typ = Halt tb /\ s' = s /\ ns = [] /\
+    v = VList (map VBytes (spec_recs s (hash tok) (hash name) tb)).
+Proof.
+  intros c s name typ s' v ns Hinv H.
+  apply get_records_spec in H as (tok & tb & nst & _ & H1 & _ & H2 & H3 & H4 & H5); [|exact Hinv].
+  exists tok, tb. split; [exact H1|]. split; [exact H2|]. split; [exact H3|]. split; [exact H4|exact H5].
+Qed.
+
+Theorem C12_refines_all : forall c s name s' v ns,
+  rec_inv s -> nexec c s (GetAllRecords name) = Halt (s', v, ns) ->
+  exists tok, tok_of c s name = Halt tok /\ s' = s /\ ns = [] /\ v = VList (all_vals s (hash tok) name).
+Proof.
+  intros c s name s' v ns Hinv H.
+  apply get_all_records_spec in H as (tok & nst & _ & H1 & _ & H2 & H3 & H4); [|exact hash_inj|exact Hinv].
+  exists tok. split; [exact H1|]. split; [exact H2|]. split; [exact H3|exact H4].
+Qed.
+
+(** [all_vals]: the five lists in ascending type order, each entry with the
+    fields (name, type, data, id = position). *)
+Theorem C12_all_vals_meaning : forall s tk name,
+  all_vals s tk name =
+    rec_vals name 1 (spec_recs s tk (hash name) 1) ++ rec_vals name 5 (spec_recs s tk (hash name) 5) ++
+    rec_vals name 6 (spec_recs s tk (hash name) 6) ++ rec_vals name 16 (spec_recs s tk (hash name) 16) ++
+    rec_vals name 28 (spec_recs s tk (hash name) 28) /\
+  forall tb l, rec_vals name tb l =
+    imap (fun j d => VList [VBytes name; VInt (Z.of_N tb); VBytes d; VInt (Z.of_nat j)]) l.
+Proof. intros s tk name. split; reflexivity. Qed.
+
+(** the two readers halt exactly on readable non-TLD names (section 10) *)
+Theorem C12_readers_halt_iff : forall c s name,
   ((exists s' v ns, nexec c s (GetAllRecords name) = Halt (s', v, ns)) <->
      length (split_dot name) <> 1%nat /\ readable c s name) /\
   (forall typ, (exists s' v ns, nexec c s (GetRecords name typ) = Halt (s', v, ns)) <->
      length (split_dot name) <> 1%nat /\ readable c s name /\ -128 <= typ <= 255).
 Proof.
-  intros c s name Hinv. split; [|split; [|split]].
-  - intros typ s' v ns H.
-    apply get_records_spec in H as (tok & tb & nst & _ & H1 & _ & H2 & H3 & H4 & H5); [|exact Hinv].
-    exists tok, tb. auto.
-  - intros s' v ns H.
-    apply get_all_records_spec in H as (tok & nst & _ & H1 & _ & H2 & H3 & H4); [|exact hash_inj|exact Hinv].
-    exists tok. auto.
-  - apply get_all_records_halts_iff.
-  - intros typ. apply get_records_halts_iff.
+  intros c s name. split; [apply get_all_records_halts_iff|]. intros typ. apply get_records_halts_iff.
 Qed.
 
 (** The same over every history. *)
@@ -126,7 +139,7 @@ Theorem C12_refines_history : forall ops c name typ s' v ns,
     (length (spec_recs (nrun ops) (hash tok) (hash name) tb) <= 16)%nat.
 Proof.
   intros ops c name typ s' v ns H.
-  destruct (proj1 (C12_refines c _ name (C12_invariant ops)) _ _ _ _ H) as (tok & tb & H1 & H2 & _ & _ & H3).
+  destruct (C12_refines _ _ _ _ _ _ _ (C12_invariant ops) H) as (tok & tb & H1 & H2 & _ & _ & H3).
   exists tok, tb. split; [exact H1|]. split; [exact H2|]. split; [exact H3|].
   split; [apply nrun_distinct; exact hash_inj|].
   eapply spec_recs_shape. apply C12_invariant.
@@ -151,6 +164,22 @@ Theorem C12_add_appends : forall c s name typ data s' v ns,
     names s' = names s /\ roots s' = roots s /\ supply s' = supply s /\ balances s' = balances s /\
     acctok s' = acctok s /\ price s' = price s /\ v = VNull /\ ns = [].
 Proof. intros c s name typ data s' v ns. apply add_record_spec; exact hash_inj. Qed.
+
+(** "exactly": a step that is not a successful addRecord / setRecord /
+    deleteRecords leaves every list (and every key) of the record types
+    other than SOA unchanged — registrations (re-registration of an expired
+    name included: old records are kept), renewals, transfers, faulting calls.
+    SOA records are written by register / registerTLD / updateSOA and
+    refreshed by the three record methods (section 7). *)
+Theorem C12_exactly : forall s c o tk nk tb,
+  is_mutator o = false -> tb <> 6%N ->
+  spec_recs (fst (fst (nstep s (c, o)))) tk nk tb = spec_recs s tk nk tb /\
+  forall i, records (fst (fst (nstep s (c, o)))) !! (tk, nk, tb, i) = records s !! (tk, nk, tb, i).
+Proof. intros s c o tk nk tb. apply (other_ops_keep_lists hash valid_name valid_data str_ok s (c, o)). Qed.
+
+Theorem C12_fault_inert : forall s c o,
+  nexec c s o = Fault -> nstep s (c, o) = (s, VFault, []).
+Proof. intros s c o H. unfold NNS.nstep. simpl. rewrite H. reflexivity. Qed.
 
 (** ** 4. setRecord replaces by index *)
 (** A successful [setRecord name typ id data] replaces position [id] of exactly
@@ -269,6 +298,15 @@ Theorem C12_resolve_unfold : forall c s b name typ,
            List.last (spec_recs s (hash tok) (hash (strip_dot name)) 5) [])).
 Proof. intros c s b name typ. split; [reflexivity|]. split; reflexivity. Qed.
 
+(** the T-records among all entries of a name: the list of type T for the
+    five record types, nothing for any other T *)
+Theorem C12_typ_recs_meaning : forall s tk nk typ,
+  typ_recs s tk nk typ =
+    if typ =? 1 then spec_recs s tk nk 1 else if typ =? 5 then spec_recs s tk nk 5
+    else if typ =? 6 then spec_recs s tk nk 6 else if typ =? 16 then spec_recs s tk nk 16
+    else if typ =? 28 then spec_recs s tk nk 28 else [].
+Proof. intros s tk nk typ. reflexivity. Qed.
+
 (** no CNAME at the name, or the CNAME type itself is requested: its records *)
 Theorem C12_resolve_chain0 : forall c s name typ r0 l0,
   rnode c s name typ = Halt (r0, l0) -> l0 = [] \/ typ = 5 ->
@@ -369,8 +407,13 @@ Print Assumptions C12_invariant.
 Print Assumptions C12_listing.
 Print Assumptions C12_refines_shape.
 Print Assumptions C12_refines.
+Print Assumptions C12_refines_all.
+Print Assumptions C12_all_vals_meaning.
+Print Assumptions C12_readers_halt_iff.
 Print Assumptions C12_refines_history.
 Print Assumptions C12_add_appends.
+Print Assumptions C12_exactly.
+Print Assumptions C12_fault_inert.
 Print Assumptions C12_set_replaces.
 Print Assumptions C12_delete_empties_one_type.
 Print Assumptions C12_delete_never_soa.
@@ -380,6 +423,7 @@ Print Assumptions C12_location.
 Print Assumptions C12_soa_serial.
 Print Assumptions C12_resolve.
 Print Assumptions C12_resolve_unfold.
+Print Assumptions C12_typ_recs_meaning.
 Print Assumptions C12_resolve_chain0.
 Print Assumptions C12_resolve_chain1.
 Print Assumptions C12_resolve_chain2.
@@ -391,3 +435,149 @@ Print Assumptions C12_readable_meaning.
 Print Assumptions C12_expired_unreachable.
 Print Assumptions C12_distinct_step.
 Print Assumptions C12_distinct.
+
+(** ** Non-vacuity: concrete histories (hash := identity, every name / datum /
+    string accepted), evaluated by [vm_compute]. *)
+Module C12_examples.
+Definition hid (b : bytes) : bytes := b.
+Definition vn (b : bytes) : bool := true.
+Definition vd (t : Z) (b : bytes) : bool := true.
+Definition so (b : bytes) : bool := true.
+Lemma hid_inj : forall a b, hid a = hid b -> a = b.
+Proof. intros a b H. exact H. Qed.
+
+Definition com : bytes := [99;111;109]%N.                       (* "com" *)
+Definition acom : bytes := [97;46;99;111;109]%N.                (* "a.com" *)
+Definition bacom : bytes := [98;46;97;46;99;111;109]%N.         (* "b.a.com" *)
+Definition cacom : bytes := [99;46;97;46;99;111;109]%N.         (* "c.a.com" *)
+Definition dacom : bytes := [100;46;97;46;99;111;109]%N.        (* "d.a.com" *)
+Definition eacom : bytes := [101;46;97;46;99;111;109]%N.        (* "e.a.com" *)
+Definition xbacom : bytes := [120;46;98;46;97;46;99;111;109]%N. (* "x.b.a.com" *)
+Definition bacom_dot : bytes := bacom ++ [46]%N.                (* "b.a.com." *)
+Definition x : bytes := [120]%N.
+Definition y : bytes := [121]%N.
+Definition z : bytes := [122]%N.
+Definition o1 : bytes := repeat 1%N 20.
+Definition cm : bytes := repeat 9%N 20.
+Definition cx (t : Z) (w : list bytes) : nctx := mkNC t w cm [].
+
+Definition run := nrun hid vn vd so.
+Definition run_from := nrun_from hid vn vd so.
+Definition obs (s : nstate) (c : nctx) (o : nop) : val := snd (fst (nstep hid vn vd so s (c, o))).
+Definition after (s : nstate) (c : nctx) (o : nop) : nstate := fst (fst (nstep hid vn vd so s (c, o))).
+
+(** TLD "com" (expires 1000100), "a.com" owned by o1 (expires 100200), two TXT
+    records of the sub-name "b.a.com" *)
+Definition h0 : list (nctx * nop) :=
+  [(cx 100 [cm], RegisterTLD com [101]%N 1 2 1000 4);
+   (cx 200 [o1], Register acom (Some o1) [101]%N 1 2 100 4);
+   (cx 300 [o1], AddRecord bacom 16 x);
+   (cx 301 [o1], AddRecord bacom 16 y)].
+Definition s0 : nstate := run h0.
+
+(** readers = specification lists; location under the token "a.com" *)
+Example ex_getRecords : obs s0 (cx 400 []) (GetRecords bacom 16) = VList [VBytes x; VBytes y].
+Proof. vm_compute. reflexivity. Qed.
+Example ex_spec_recs : spec_recs s0 acom bacom 16 = [x; y] /\ token_id_from_name hid vn (cx 400 []) s0 bacom = Halt acom.
+Proof. vm_compute. split; reflexivity. Qed.
+Example ex_location : records s0 !! (acom, bacom, 16%N, 1%N) = Some (mkR bacom 16 y 1).
+Proof. vm_compute. reflexivity. Qed.
+Example ex_getAllRecords :
+  obs s0 (cx 400 []) (GetAllRecords bacom) =
+  VList [VList [VBytes bacom; VInt 16; VBytes x; VInt 0]; VList [VBytes bacom; VInt 16; VBytes y; VInt 1]].
+Proof. vm_compute. reflexivity. Qed.
+
+(** finding F14 (setRecord duplicate), now fixed: [add x; add y; set 0 y]
+    faults and changes nothing; setting the same value at the same id and
+    setting a fresh value still succeed *)
+Example ex_F14_fixed :
+  obs s0 (cx 302 [o1]) (SetRecord bacom 16 0 y) = VFault /\
+  spec_recs (after s0 (cx 302 [o1]) (SetRecord bacom 16 0 y)) acom bacom 16 = [x; y] /\
+  obs s0 (cx 302 [o1]) (SetRecord bacom 16 0 x) = VNull /\
+  obs s0 (cx 302 [o1]) (SetRecord bacom 16 0 z) = VNull /\
+  spec_recs (after s0 (cx 302 [o1]) (SetRecord bacom 16 0 z)) acom bacom 16 = [z; y] /\
+  obs s0 (cx 302 [o1]) (SetRecord bacom 16 2 z) = VFault /\
+  obs s0 (cx 302 [o1]) (AddRecord bacom 16 y) = VFault.
+Proof. vm_compute. repeat split; reflexivity. Qed.
+
+(** deleteRecords empties one type; SOA and aliases of it are refused; an
+    alias byte (-1 -> 255) deletes nothing *)
+Example ex_delete :
+  obs (after s0 (cx 302 [o1]) (DeleteRecords bacom 16)) (cx 400 []) (GetRecords bacom 16) = VList [] /\
+  obs s0 (cx 302 [o1]) (DeleteRecords acom 6) = VFault /\
+  obs s0 (cx 302 [o1]) (DeleteRecords acom (-250)) = VFault /\
+  obs s0 (cx 302 [o1]) (DeleteRecords bacom (-1)) = VNull /\
+  spec_recs (after s0 (cx 302 [o1]) (DeleteRecords bacom (-1))) acom bacom 16 = [x; y].
+Proof. vm_compute. repeat split; reflexivity. Qed.
+
+(** every mutation refreshes the SOA serial of the token: "a.com e 200 1 2 100 4"
+    becomes "... 301 ..." after the addRecord at time 301 *)
+Example ex_soa_serial :
+  r_data <$> records (run (firstn 2 h0)) !! (acom, acom, 6%N, 0%N) =
+    Some (acom ++ [32; 101; 32; 50; 48; 48; 32; 49; 32; 50; 32; 49; 48; 48; 32; 52]%N) /\
+  r_data <$> records s0 !! (acom, acom, 6%N, 0%N) =
+    Some (acom ++ [32; 101; 32; 51; 48; 49; 32; 49; 32; 50; 32; 49; 48; 48; 32; 52]%N).
+Proof. vm_compute. split; reflexivity. Qed.
+
+(** 16 records at most, one CNAME at most *)
+Definition many : list (nctx * nop) :=
+  map (fun i => (cx 500 [o1], AddRecord cacom 16 [N.of_nat i])) (seq 0 16).
+Example ex_limits :
+  let s := run_from s0 many in
+  length (spec_recs s acom cacom 16) = 16%nat /\
+  obs s (cx 501 [o1]) (AddRecord cacom 16 [99]%N) = VFault /\
+  obs s (cx 501 [o1]) (AddRecord cacom 5 dacom) = VNull /\
+  obs (after s (cx 501 [o1]) (AddRecord cacom 5 dacom)) (cx 502 [o1]) (AddRecord cacom 5 eacom) = VFault.
+Proof. vm_compute. repeat split; reflexivity. Qed.
+
+(** resolve: chains of 0, 1, 2 links, 3 links and a cycle, trailing dot *)
+Definition h2 : list (nctx * nop) :=
+  [(cx 310 [o1], AddRecord bacom 5 cacom); (cx 311 [o1], AddRecord cacom 5 dacom);
+   (cx 312 [o1], AddRecord dacom 16 z)].
+Definition s2 : nstate := run_from s0 h2.
+Example ex_resolve :
+  obs s0 (cx 400 []) (Resolve bacom 16) = VList [VBytes x; VBytes y] /\
+  obs (run_from s0 (firstn 1 h2)) (cx 400 []) (Resolve bacom 16) = VList [VBytes x; VBytes y] /\
+  obs s2 (cx 400 []) (Resolve bacom 16) = VList [VBytes x; VBytes y; VBytes z] /\
+  obs s2 (cx 400 []) (Resolve bacom_dot 16) = VList [VBytes x; VBytes y; VBytes z] /\
+  obs s2 (cx 400 []) (Resolve bacom 5) = VList [VBytes cacom] /\
+  obs (after s2 (cx 313 [o1]) (AddRecord dacom 5 eacom)) (cx 400 []) (Resolve bacom 16) = VFault /\
+  obs (after s2 (cx 313 [o1]) (AddRecord dacom 5 bacom)) (cx 400 []) (Resolve bacom 16) = VFault /\
+  obs (after s2 (cx 313 [o1]) (AddRecord dacom 5 eacom)) (cx 400 []) (Resolve cacom 16) = VList [VBytes z].
+Proof. vm_compute. repeat split; reflexivity. Qed.
+Example ex_rnode :
+  rnode hid vn (cx 400 []) s2 bacom 16 = Halt ([x; y], cacom) /\
+  rnode hid vn (cx 400 []) s2 cacom 16 = Halt ([], dacom) /\
+  rnode hid vn (cx 400 []) s2 dacom 16 = Halt ([z], []) /\
+  resolve_spec hid vn (cx 400 []) s2 3 bacom 16 = Halt [x; y; z].
+Proof. vm_compute. repeat split; reflexivity. Qed.
+
+(** conflict: "b.a.com" cannot be registered while "a.com" holds a record of
+    "x.b.a.com"; without that record the same registration succeeds *)
+Example ex_conflict :
+  let s := after s0 (cx 320 [o1]) (AddRecord xbacom 16 z) in
+  records s !! (acom, xbacom, 16%N, 0%N) = Some (mkR xbacom 16 z 0) /\
+  proper_suffix bacom xbacom = true /\ join_dot (drop 1 (split_dot bacom)) = acom /\
+  obs s (cx 330 [o1]) (Register bacom (Some o1) [101]%N 1 2 100 4) = VFault /\
+  obs (after s (cx 325 [o1]) (DeleteRecords xbacom 16)) (cx 330 [o1]) (Register bacom (Some o1) [101]%N 1 2 100 4) = VBool true.
+Proof. vm_compute. repeat split; reflexivity. Qed.
+
+(** expiry: "a.com" expires at 100200 *)
+Example ex_expired :
+  obs s0 (cx 100199 []) (GetRecords bacom 16) = VList [VBytes x; VBytes y] /\
+  obs s0 (cx 100200 []) (GetRecords bacom 16) = VFault /\
+  obs s0 (cx 100200 []) (GetAllRecords bacom) = VFault /\
+  obs s0 (cx 100200 []) (Resolve bacom 16) = VFault /\
+  token_id_from_name hid vn (cx 100200 []) s0 bacom = Halt bacom /\
+  parent_expired hid (cx 100200 []) s0 0 (split_dot bacom) = true.
+Proof. vm_compute. repeat split; reflexivity. Qed.
+
+(** the invariant and distinctness on these histories, from the theorems *)
+Example ex_invariant : rec_inv hid s2 /\ distinct_inv s2.
+Proof.
+  split.
+  - apply (nrun_from_inv hid vn vd so hid_inj). apply (C12_invariant hid vn vd so hid_inj).
+  - apply (nrun_from_distinct hid vn vd so hid_inj); [apply (C12_invariant hid vn vd so hid_inj)|].
+    intros tk nk tb. apply (C12_distinct hid vn vd so hid_inj).
+Qed.
+End C12_examples.
